@@ -85,3 +85,6 @@ for dp, dn, fn in os.walk(os.path.join(root, "typhon")):
         st[rel] = snapshot_of(tree)
 json.dump(st, open(os.path.join(here, "..", "tyverif", "known_stmts.json"), "w"), indent=0, sort_keys=True)
 print("known_stmts:", sum(len(v) for v in st.values()), "functions")
+# state snapshot: module-level names, attributes assigned per class, memoised functions, mutable defaults, global statements
+from tyverif.state import snapshot as _state_snapshot
+json.dump(_state_snapshot(root), open(os.path.join(here, "..", "tyverif", "known_state.json"), "w"), indent=0, sort_keys=True)
